@@ -1063,7 +1063,24 @@ func (m *Mon) stepC09(sc *StepCtx, si stepInfo) {
 		if !ok {
 			m.hit("C09", "removed", cls)
 			if !sc.IsBlock() {
-				m.fail(sc, "C09", "removed-only-at-block-end", cls, "context %.16s disappeared in %s", id, sc.Step.Desc)
+				// the statements allow one removal outside end-of-block processing: an accepted kill of
+				// a context that has nothing in flight may delete it at once (a completed context is
+				// final either way; C16 only says when a killed context must be gone at the latest)
+				idleKill := false
+				if isCtxOp && op == "kill" && target == id && sc.Res.OK && len(pre.ExpQ[id]) == 0 {
+					idleKill = true
+					for rid := range pre.Requests {
+						if c, _, _, _, ok := reqParts(rid); ok && c == id {
+							idleKill = false
+						}
+					}
+				}
+				if cbKilled[id] && len(pre.ExpQ[id]) == 0 {
+					idleKill = true
+				}
+				if !idleKill {
+					m.fail(sc, "C09", "removed-only-at-block-end", cls, "context %.16s disappeared in %s", id, sc.Step.Desc)
+				}
 			} else {
 				// a context's life ends only by kill or because it has no batch left: a one-shot context
 				// whose batch has expired, a repeated one that reached its total. Anything else that is
